@@ -102,6 +102,7 @@ def run(rep, ctx, tier):
         g = ctx.graph(a)
         rep.count("bodies_in_scope", len(g.scope))
         R3.run(rep, ctx, a, "R3")
+        R3.run_option(rep, ctx, a, "R3")
         # a verdict computed per item is accumulated, not overwritten by the last item's
         R1D.run_last_value(rep, ctx, a, "R1L")
         for name, comp in R1.proof_components(a, ctx.facts):
